@@ -1,5 +1,6 @@
 """Engine-M case runner: template -> symbolic run of the MIR -> obligations -> native replay of counterexamples."""
 import json
+import re
 import os
 import subprocess
 import time
@@ -89,7 +90,10 @@ def run_case(case, mir, schema, native=None, quick=True):
     b = Builder(h, schema)
     b.fixed = dict(getattr(case, "fixed", {}) or {})
     for pat, fn in case.stubs.items():
-        h.eng.stubs[mir.find_fn(pat)] = fn
+        if pat.startswith("re:"):
+            h.eng.ext_stubs.append((re.compile(pat[3:]), fn))  # environment stub matched on the call-site text (std / foreign functions)
+        else:
+            h.eng.stubs[mir.find_fn(pat)] = fn
     for wname, wfields in getattr(schema, "wrappers", {}).items():
         mir.struct_fields[wname] = wfields
         mir.struct_fields_all[wname] = [wfields]
@@ -174,6 +178,7 @@ def run_case(case, mir, schema, native=None, quick=True):
         for (o, ci) in finals:
             k = outcome_kind(o)
             kinds[k] = kinds.get(k, 0) + 1
+            h._cur_st = o.st  # accessors follow Box pointers through this state's heap
             post = VAcc(h, h.deref(o.st, p)) if p is not None else None
             ret = None
             if o.kind == "ret":
